@@ -121,11 +121,27 @@ macro_rules! grow {
     () => {
         #[inline]
         fn s_push(&mut self, c: char, try_: bool) -> Result<(), ()> {
-            if try_ { m(self.try_push(c)) } else { Ok(self.push(c)) }
+            // the panicking form alternates between push and fmt::Write::write_char
+            if try_ {
+                m(self.try_push(c))
+            } else if (c as u32) % 2 == 0 {
+                Ok(self.push(c))
+            } else {
+                Ok(std::fmt::Write::write_char(self, c).expect("a formatting trait implementation returned an error"))
+            }
         }
         #[inline]
         fn s_push_str(&mut self, s: &str, try_: bool) -> Result<(), ()> {
-            if try_ { m(self.try_push_str(s)) } else { Ok(self.push_str(s)) }
+            // the panicking form alternates between push_str, `+=` and fmt::Write::write_str
+            if try_ {
+                m(self.try_push_str(s))
+            } else {
+                match s.len() % 3 {
+                    0 => Ok(self.push_str(s)),
+                    1 => Ok(*self += s),
+                    _ => Ok(std::fmt::Write::write_str(self, s).expect("a formatting trait implementation returned an error")),
+                }
+            }
         }
         #[inline]
         fn s_insert(&mut self, i: usize, c: char, try_: bool) -> Result<(), ()> {
